@@ -3675,7 +3675,13 @@ coap_block_build_body(coap_binary_t *body_data, size_t length,
      *   estimate the server has of the total size of the resource
      *   representation, measured in bytes ("size indication").
      */
-    coap_binary_t *new = coap_resize_binary(body_data, offset + length);
+    size_t new_length = offset + length;
+    coap_binary_t *new;
+
+    /* Payloads already stored beyond this one must be kept */
+    if (new_length < body_data->length)
+      new_length = body_data->length;
+    new = coap_resize_binary(body_data, new_length);
 
     if (new) {
       body_data = new;
